@@ -442,6 +442,34 @@ class CallMixin(ExprMixin):
                 se.assume(ev.clause(t))
             se.trace.append(f"L{line}:{c.key} raises (anonymous)")
             yield Raise("AnyException", line, f"anonymous exception from {c.key}"), se
+        # newly allocated results exist in the post-state the ensures talk about (allocated(result), fresh(result[i]))
+        if (c.fresh_result or recv == "new") and isinstance(result, Val):
+            from .state import root_record
+            fresh_refs = []
+            if result.ty.kind == "ref":
+                fresh_refs = [result]
+            elif result.ty.kind == "tuple":       # (new object, flag): the object components are newly allocated
+                fresh_refs = [it for it in V.tuple_items(result) if it.ty.kind == "ref"]
+            for fr in fresh_refs:
+                post.allocate(fr.ty.name, fr.t)
+                if post.written_alloc is not None:
+                    post.written_alloc.add(root_record(fr.ty.name))
+            if result.ty.kind == "list" and result.ty.elem.kind == "ref":
+                # a fresh list of objects: every element is new, and nothing else was allocated
+                rec = root_record(result.ty.elem.name)
+                a_old = post.alloc_map(rec)
+                a_new = z3.Const(V.fresh_name(f"A_{rec}"), z3.ArraySort(T.RefSort, z3.BoolSort()))
+                qi, qr = z3.Int(V.fresh_name("qi")), z3.Const(V.fresh_name("qr"), T.RefSort)
+                idx = z3.Function(V.fresh_name("alloc_idx"), T.RefSort, z3.IntSort())
+                n_ = V.list_len(result)
+                el = lambda k: V.list_get(result, k).t
+                post.assume(z3.ForAll([qi], z3.Implies(z3.And(0 <= qi, qi < n_), z3.And(z3.Not(z3.Select(a_old, el(qi))), z3.Select(a_new, el(qi))))))
+                post.assume(z3.ForAll([qr], z3.Implies(z3.Select(a_old, qr), z3.Select(a_new, qr))))
+                post.assume(z3.ForAll([qr], z3.Implies(z3.And(z3.Select(a_new, qr), z3.Not(z3.Select(a_old, qr))),
+                                                       z3.And(0 <= idx(qr), idx(qr) < n_, el(idx(qr)) == qr))))
+                post.alloc[rec] = a_new
+                if post.written_alloc is not None:
+                    post.written_alloc.add(rec)
         try:
             ev = SpecEval(self, post, pre, post_env, facts, c.defs, env)
             ens = [ev.clause(t) for t in list(c.ensures) + list(c.ghost_ensures) + list(c.trusted_ensures)]
@@ -468,17 +496,6 @@ class CallMixin(ExprMixin):
         self.wf(post, result)
         for name in modified_params:
             self.wf(post, post_env[name])
-        fresh_refs = []
-        if (c.fresh_result or recv == "new") and isinstance(result, Val):
-            if result.ty.kind == "ref":
-                fresh_refs = [result]
-            elif result.ty.kind == "tuple":       # (new object, flag): the object components are newly allocated
-                fresh_refs = [it for it in V.tuple_items(result) if it.ty.kind == "ref"]
-        for fr in fresh_refs:
-            post.allocate(fr.ty.name, fr.t)
-            if post.written_alloc is not None:
-                from .state import root_record
-                post.written_alloc.add(root_record(fr.ty.name))
         self.writeback(modified_params, post_env, argkey, arg_nodes, recv_node, post, node)
         if memo_key is not None:
             post.pure_memo[memo_key] = result
@@ -494,6 +511,13 @@ class CallMixin(ExprMixin):
                 self.covers.append(Obligation(f"{self.contract.key}/callret/L{line}:{c.key}/{seen + 1}", "callret", self.contract.key, line,
                                               f"the call of {c.key} at line {line} can return normally (its postcondition is consistent with the caller's state)",
                                               list(post.pc), None, expect="sat", extra={"site": f"{self.contract.key}@{line}:{c.key}"}))
+                if alive and isinstance(result, Val) and result.ty.kind == "list":
+                    # ... and with a non-empty list: a quantified contradiction over the elements (found once: fresh(result[i]) without
+                    # allocation) leaves only the empty list and makes everything about the elements vacuous
+                    self.covers.append(Obligation(f"{self.contract.key}/callret/L{line}:{c.key}/nonempty{seen + 1}", "callret", self.contract.key, line,
+                                                  f"the call of {c.key} at line {line} can return a non-empty list",
+                                                  list(post.pc) + [V.list_len(result) >= 1], None, expect="sat",
+                                                  extra={"site": f"{self.contract.key}@{line}:{c.key}:nonempty"}))
         if not alive:
             return
         yield result, post
